@@ -28,7 +28,8 @@ def _gen(name, cfg, workers, env=None, timeout=900):
         os.remove(out)
     e = {"GEN_OUT": out}
     e.update(env or {})
-    r = tlc.run("Gen_Reader", cfg, env=e, timeout=timeout, workers=workers)
+    import reader_lib as rl
+    r = rl.tlc_run("Gen_Reader", cfg, env=e, timeout=timeout, workers=workers)
     recs = []
     if os.path.exists(out):
         with open(out) as f:
@@ -42,13 +43,14 @@ def _gen(name, cfg, workers, env=None, timeout=900):
 
 
 def start_tlc(chk, pool):
+    import reader_lib as rl
     th = chk.tier == "thorough"
     jobs = {}
-    jobs["mc"] = pool.submit(tlc.run, "MC_Reader", "MC_Reader_full.cfg" if th else "MC_Reader_quick.cfg",
+    jobs["mc"] = pool.submit(rl.tlc_run, "MC_Reader", "MC_Reader_full.cfg" if th else "MC_Reader_quick.cfg",
                              workers=6, timeout=2400)
-    jobs["mc3"] = pool.submit(tlc.run, "MC_Reader", "MC_Reader_three_full.cfg" if th else "MC_Reader_three.cfg",
+    jobs["mc3"] = pool.submit(rl.tlc_run, "MC_Reader", "MC_Reader_three_full.cfg" if th else "MC_Reader_three.cfg",
                               workers=4, timeout=2400)
-    jobs["neg"] = pool.submit(tlc.run, "MC_Reader", "Neg_Reader_shared.cfg", workers=1, timeout=300)
+    jobs["neg"] = pool.submit(rl.tlc_run, "MC_Reader", "Neg_Reader_shared.cfg", workers=1, timeout=300)
     jobs["g2"] = pool.submit(_gen, "two", "Gen_Reader_two.cfg", 2)
     jobs["g3"] = pool.submit(_gen, "three", "Gen_Reader_three.cfg" if th else "Gen_Reader_three_sample.cfg", 3,
                              {"GEN_SEED": chk.seed % 6})
@@ -78,7 +80,49 @@ def requests(fsx, rnd, nrand, limit, maxn):
         rand.append((rnd.randrange(0, L - n + 1), n))
     if len(sysreq) > limit:
         sysreq = rnd.sample(sysreq, limit)
-    return refus + hist + sysreq + rand
+    return refus + hist + sysreq + rand + narrow_requests(fsx, maxn)
+
+
+INT_TYPES = ("int", "int64", "int32", "int16", "int8", "uint8", "uint16", "uint32", "uint64", "array0d_int64", "array0d_uint8",
+             "array0d_int16")
+
+
+def typed(v, name):
+    """the integer v as Python int, NumPy fixed-width scalar or 0-d array"""
+    import numpy as np
+    if name == "int":
+        return int(v)
+    if name.startswith("array0d_"):
+        return np.array(v, dtype=name[8:])
+    return getattr(np, name)(v)
+
+
+def fits(v, name):
+    import numpy as np
+    if name == "int":
+        return True
+    ii = np.iinfo(name[8:] if name.startswith("array0d_") else name)
+    return ii.min <= v <= ii.max
+
+
+def pick_type(o, n, j):
+    c = [t for t in INT_TYPES if fits(o, t) and fits(n, t)]
+    return c[j % len(c)]
+
+
+def narrow_requests(fsx, maxn):
+    """(o, n, type): offsets and counts that fit the fixed-width type while o + n, 2*o or 2*n do not -
+    an integer is an integer, the expectation is that of the Python ints"""
+    L = fsx.outlen
+    per = fsx.A * fsx.B * (3 if fsx.mode == "direct" else 1)
+    out = []
+    for t, M in (("int8", 127), ("uint8", 255), ("int16", 32767), ("uint16", 65535), ("array0d_uint8", 255)):
+        for o, n in ((M - 1, 2), (M, M), (M // 2 + 1, 2), (M // 2 + 1, M // 2 + 1), (M - maxn, maxn), (M // 4 + 1, M // 4 + 1)):
+            inb = o + n <= L
+            if inb and n * per > 12000:
+                continue           # a legitimate read too long to ship as an event
+            out.append((o, n, t))
+    return out
 
 
 def _key(fsx):
@@ -118,14 +162,18 @@ def history_events(chk, cx, fsx, reqs, eid0, dask_every=4):
     r = fsx.reader
     evs = []
     done = {}
-    for j, (o, n) in enumerate(reqs):
-        out = rl.do_read(r, o, n)
+    for j, rq in enumerate(reqs):
+        o, n = rq[0], rq[1]
+        # the same request as Python ints, NumPy fixed-width scalars or 0-d arrays (whatever can hold o and n)
+        at = rq[2] if len(rq) > 2 else (pick_type(o, n, j // 2) if j % 2 == 0 else "int")
+        out = rl.do_read(r, typed(o, at), typed(n, at))
         flags = {}
         if out[0] == "ok":
             d = np.asarray(out[1].data)
             pos, cnt = (2 * o, 2 * n) if fsx.real else (o, n)
-            direct = fsx.direct(pos, cnt) if (fsx.mode == "direct" or j % 5 == 0) else None
-            if fsx.raw is not None:
+            inb = o >= 0 and n >= 0 and o + n <= fsx.outlen        # otherwise the specification expects a refusal
+            direct = fsx.direct(pos, cnt) if inb and (fsx.mode == "direct" or j % 5 == 0) else None
+            if fsx.raw is not None and inb:
                 flags["eq_written"] = arrays_equal(rl, fsx, d, rl.expected_post(fsx, fsx.raw[pos:pos + cnt]))
             if direct is not None:
                 flags["eq_direct"] = arrays_equal(rl, fsx, d, rl.expected_post(fsx, direct))
@@ -144,16 +192,22 @@ def history_events(chk, cx, fsx, reqs, eid0, dask_every=4):
                                max_elems=40000)
         else:
             ev = rl.read_event(fsx, o, n, out, eid=eid0 + len(evs))
+        ev["argtype"] = at
+        cx.argtypes[at] = cx.argtypes.get(at, 0) + 1
         evs.append(ev)
         cx.counts["reads"] += 1
         eager = np.array(out[1].data, copy=True) if out[0] == "ok" else None      # before anything modifies the result
+        if out[0] == "ok" and not inb:
+            continue
         if out[0] == "ok" and n > 0 and j % 3 == 0:
             evs += mutation_steps(cx, fsx, r, o, n, out, j, eid0 + len(evs))
         if out[0] == "ok" and j % dask_every == 1 % dask_every:
             # Dask read: lazy (no file opened while the graph is built), equal to the eager read bitwise
             c0 = rl.opens()
+            ck = rq[3] if len(rq) > 3 else chunk_layout(cx.counts["dask"], n, d.shape[1], d.shape[2])
+            kw = {} if ck is None else {"chunks": ck}
             try:
-                zd = r.dask_read(o, n) if j % 2 else r.read(o, n, use_dask=True)
+                zd = r.dask_read(o, n, **kw) if j % 2 else r.read(o, n, use_dask=True, **kw)
                 c1 = rl.opens()
                 lazy = c1 == c0 and isinstance(zd.data, da.Array)
                 arr = zd.data.compute(scheduler="threads" if j % 3 else "synchronous")
@@ -163,13 +217,38 @@ def history_events(chk, cx, fsx, reqs, eid0, dask_every=4):
                 fl = {"dask_lazy": bool(lazy),
                       "dask_eq_eager": bool(np.array_equal(arr, eager) and arr.dtype == eager.dtype),
                       "dask_type": type(zd) is type(out[1])}
-                evs.append(rl.read_event(fsx, o, n, ("ok", z2), eid=eid0 + len(evs), how="dask", flags=fl,
-                                         with_direct=direct if fsx.mode == "direct" else None, max_elems=40000))
+                ev = rl.read_event(fsx, o, n, ("ok", z2), eid=eid0 + len(evs), how="dask", flags=fl,
+                                   with_direct=direct if fsx.mode == "direct" else None, max_elems=40000)
             except Exception as e:  # noqa
                 ev = rl.read_event(fsx, o, n, ("exc", rl.status_of(e) + ": " + str(e)[:100]), eid=eid0 + len(evs), how="dask")
-                evs.append(ev)
+            ev["chunks"] = repr(ck)
+            cx.chunk_kinds[chunk_kind(ck)] = cx.chunk_kinds.get(chunk_kind(ck), 0) + 1
+            evs.append(ev)
             cx.counts["dask"] += 1
     return evs
+
+
+def chunk_layout(i, n, X, Y):
+    """chunks= argument of the i-th Dask read: default, time axis split evenly / unevenly / into single
+    samples, trailing axes split"""
+    if n == 0:
+        return (None, (-1, -1, -1))[i % 2]
+    small = X * Y <= 64
+    opts = [None,
+            (max(1, n // 2), -1, -1),
+            (1, 1, 1) if small else (1, -1, -1),
+            (-1, 1, -1) if X <= 64 else (-1, -1, 1),
+            (max(1, n // 3), -1, 1) if Y <= 8 else (max(1, n // 3), -1, -1),
+            ((n - n // 3, n // 3), -1, -1) if n >= 3 else (1, -1, -1),
+            (2, max(1, X // 2), -1)]
+    return opts[i % len(opts)]
+
+
+def chunk_kind(ck):
+    if ck is None:
+        return "default"
+    t = "time-split" if ck[0] != -1 else "time-whole"
+    return t + ("+trailing-split" if any(c != -1 for c in ck[1:]) else "")
 
 
 def mutation_steps(cx, fsx, r, o, n, out, j, eid0):
@@ -470,6 +549,8 @@ def _run(chk, rl, tmp, pool):
                                  "large")}
     cx.sets_sched = set()
     cx.step_failures = {}
+    cx.argtypes = {}
+    cx.chunk_kinds = {}
     cx.written = rl.write_all(tmp)
     cx.samples = rl.sample_files()
     cx.maxn = {"s_stokes": 2, "s_vdif": 6, "s_vdif_lsb": 6, "s_guppi": 8, "s_dada": 16, "s_dada_lsb": 16}
@@ -604,9 +685,14 @@ def _run(chk, rl, tmp, pool):
             key = "%s:%s:%s:%s:%s" % (e["ev"], e["how"], cls, inp, "+".join(failed))
             if e["how"] == "dask" and e["n"] == 0 and e["st"] == "ZeroDivisionError":
                 key = "read:dask:n=0:ZeroDivisionError"
+            if e.get("argtype", "int") != "int":
+                key += ":args=" + e["argtype"]
+            if e["how"] == "dask":
+                key += ":chunks=" + chunk_kind(eval(e.get("chunks", "None")))
             chk.violation(key,
                           "%s read(%d, %d) on %s: clauses %s fail (status %s, len %s)" % (e["how"], e["o"], e["n"], e["key"], failed, e["st"], e["len"]),
-                          {"kind": "read", "fileset": e["key"], "o": e["o"], "n": e["n"], "how": e["how"], "failed": failed})
+                          {"kind": "read", "fileset": e["key"], "o": e["o"], "n": e["n"], "how": e["how"], "failed": failed,
+                           "argtype": e.get("argtype", "int"), "chunks": e.get("chunks", "None")})
         elif e["ev"] == "offset":
             chk.violation("offset:%s:%s" % (e["via"].split(":")[0], "+".join(failed)),
                           "offset_at(time_at(%d) %+d/10 sample, %s) on %s returned %r" % (e["k"], e["pert"], e["via"], e["key"], e["got"]),
@@ -624,6 +710,9 @@ def _run(chk, rl, tmp, pool):
     chk.notes["schedules_skipped_after_step_failures"] = cx.counts.get("schedules_skipped_after_step_failures", 0)
     chk.notes["dask_reads_that_opened_the_file_only_on_compute"] = cx.counts.get("dask_opened_on_compute", 0)
     chk.notes["large_reads_compared_bitwise"] = cx.counts["large"]
+    chk.notes["large_dask_reads_with_split_chunks"] = cx.counts.get("large_dask", 0)
+    chk.notes["argument_types_of_sequential_reads"] = cx.argtypes
+    chk.notes["dask_chunk_layouts"] = cx.chunk_kinds
     chk.notes["file_sets"] = {k: "%s, %d samples, frames of %d, %d file(s)" % (_key(v), v.outlen, v.spf, v.nfiles) for k, v in
                               list(cx.written.items()) + list(cx.samples.items())}
     for e in [e for e in events if e["ev"] == "read" and e["st"] == "ok" and e["n"] > 0][:2] + [e for e in events if e["ev"] == "offset"][:1]:
@@ -668,6 +757,23 @@ def large_reads(chk, cx, sets):
                 t = out[1].start_time
                 ta = fsx.reader.time_at(o)
                 ok = t.jd1 == ta.jd1 and t.jd2 == ta.jd2
+            if ok and n > 0:
+                # the same span as a Dask read whose chunks split the time axis (and a trailing axis): bitwise the eager data
+                eager = np.asarray(out[1].data)
+                for ck in ((max(1, n // 3), -1, -1), (max(1, n // 7 + 1), -1, 1 if eager.shape[2] <= 8 else -1), (-1, 1 if eager.shape[1] <= 64 else -1, -1)):
+                    if fsx.key == "s_stokes" and ck[0] != -1 and n > 4:
+                        continue
+                    try:
+                        zd = fsx.reader.read(o, n, use_dask=True, chunks=ck)
+                        same = bool(np.array_equal(zd.data.compute(), eager))
+                    except Exception as e:  # noqa
+                        same = False
+                    cx.counts["large_dask"] = cx.counts.get("large_dask", 0) + 1
+                    chk.validated += 1
+                    if not same:
+                        chk.violation("read:dask-large:%s:%s" % (_key(fsx), chunk_kind(ck)),
+                                      "Dask read(%d, %d, chunks=%r) on %s differs from the eager read" % (o, n, ck, fsx.key),
+                                      {"kind": "large-dask", "fileset": fsx.key, "o": o, "n": n, "chunks": list(ck)})
             cx.counts["large"] += 1
             chk.validated += 1
             if not ok:
@@ -689,6 +795,8 @@ def replay(doc):
         cx.counts = {k: 0 for k in ("reads", "dask", "adjacent", "forced2", "forced3", "forced_sample", "pool", "offset", "meta", "large")}
         cx.sets_sched = set()
         cx.step_failures = {}
+        cx.argtypes = {}
+        cx.chunk_kinds = {}
         cx.written = rl.write_all(tmp)
         cx.samples = rl.sample_files()
         cx.maxn = {}
@@ -710,16 +818,18 @@ def replay(doc):
                 for p in range(len(args)):
                     if not (res[p][0] == seq[p][0] == "ok" and np.array_equal(np.asarray(res[p][1].data), np.asarray(seq[p][1].data))):
                         bad.append("read %d differs from the sequential result" % (p + 1))
-        elif c["kind"] == "large":
+        elif c["kind"] in ("large", "large-dask"):
             large_reads(chk, cx, [fsx])
-            bad += [v[1] for v in chk.violations if v[2]["o"] == c["o"] and v[2]["n"] == c["n"]]
+            bad += [v[1] for v in chk.violations if v[2]["o"] == c["o"] and v[2]["n"] == c["n"] and v[2]["kind"] == c["kind"]]
         else:
             if c["kind"] == "read":
+                ck = eval(c.get("chunks", "None"))
+                rq = (c["o"], c["n"], c.get("argtype", "int"), ck)
                 if c["how"] == "dask":
-                    evs = history_events(chk, cx, fsx, [(c["o"], c["n"])] * 2, 0, dask_every=1)
+                    evs = history_events(chk, cx, fsx, [rq], 0, dask_every=1)
                     evs = [e for e in evs if e["how"] == "dask"]
                 else:
-                    evs = history_events(chk, cx, fsx, [(c["o"], c["n"])], 0, dask_every=10 ** 9)
+                    evs = history_events(chk, cx, fsx, [rq], 0, dask_every=10 ** 9)
             elif c["kind"] == "offset":
                 evs = [e for e in offset_events(chk, cx, fsx, [c["k"]] if c["pert"] else [c["k"], c["k"], c["k"], c["k"]], 0)
                        if e["pert"] == c["pert"] and e["via"].split(":")[0] == c["via"].split(":")[0]]
